@@ -24,39 +24,59 @@ def sh(cmd, timeout, **kw):
         return 124, 'timeout after %ds' % timeout
 
 
+def cmake_build(bdir, par):
+    lib = os.path.join(bdir, 'src', 'libmanifold.so')
+    if os.path.exists(lib):
+        return None
+    os.makedirs(bdir, exist_ok=True)
+    rc, log = sh(['cmake', '-G', 'Ninja', '-S', REPO, '-B', bdir, '-DCMAKE_BUILD_TYPE=RelWithDebInfo', '-DCMAKE_CXX_FLAGS=-Wno-error',
+                  '-DMANIFOLD_TEST=OFF', '-DMANIFOLD_CBIND=OFF', '-DMANIFOLD_PAR=%s' % ('ON' if par else 'OFF'), '-DFETCHCONTENT_UPDATES_DISCONNECTED=ON'], 600)
+    if rc == 0:
+        rc, log = sh(['cmake', '--build', bdir, '-j12'], 3000)
+    if rc != 0 or not os.path.exists(lib):
+        return 'MANIFOLD_PAR=%s build of %s failed: %s' % ('ON' if par else 'OFF', REPO, log[-1500:])
+    return None
+
+
 def run():
+    """every program runs twice: linked against a MANIFOLD_PAR=ON build (several thread counts, repeated) and against a
+    MANIFOLD_PAR=OFF build made with the same cmake options; `differs` = the PAR runs differ among themselves, or the
+    single-thread lines of the two builds differ ("whether the library is built with the parallel backend or serially")"""
     out = {'programs': [], 'infra': None, 'build_s': 0.0}
     key = astload.tree_hash()[:16]
     root = os.path.join(BUILD, 'native_par')
-    bdir = os.path.join(root, key)
-    lib = os.path.join(bdir, 'src', 'libmanifold.so')
+    pdir, sdir = os.path.join(root, key, 'par'), os.path.join(root, key, 'seq')
     t0 = time.time()
-    if not os.path.exists(lib):
-        # one scratch build at a time: older trees' builds are removed
-        shutil.rmtree(root, ignore_errors=True)
-        os.makedirs(bdir, exist_ok=True)
-        rc, log = sh(['cmake', '-G', 'Ninja', '-S', REPO, '-B', bdir, '-DCMAKE_BUILD_TYPE=RelWithDebInfo', '-DCMAKE_CXX_FLAGS=-Wno-error',
-                      '-DMANIFOLD_TEST=OFF', '-DMANIFOLD_CBIND=OFF', '-DMANIFOLD_PAR=ON', '-DFETCHCONTENT_UPDATES_DISCONNECTED=ON'], 600)
-        if rc == 0:
-            rc, log = sh(['cmake', '--build', bdir, '-j12'], 3000)
-        if rc != 0 or not os.path.exists(lib):
-            out['infra'] = 'MANIFOLD_PAR=ON build of %s failed: %s' % (REPO, log[-1500:])
+    if not os.path.isdir(os.path.join(root, key)):
+        shutil.rmtree(root, ignore_errors=True)   # one tree's scratch builds at a time
+    for d, par in ((pdir, True), (sdir, False)):
+        err = cmake_build(d, par)
+        if err:
+            out['infra'] = err
             return out
     out['build_s'] = round(time.time() - t0, 1)
     for src in sorted(glob.glob(os.path.join(VERIF, 'contracts', 'replay', 'par', '*.cpp'))):
         name = os.path.basename(src)[:-4]
-        exe = os.path.join(bdir, 'probe_' + name)
-        rc, log = sh(['g++', '-std=c++17', '-O1', '-I' + os.path.join(REPO, 'include'), src, '-L' + os.path.join(bdir, 'src'), '-lmanifold', '-ltbb',
-                      '-Wl,-rpath,' + os.path.join(bdir, 'src'), '-o', exe], 600)
-        if rc != 0:
-            out['infra'] = 'probe %s failed to build: %s' % (name, log[-1500:])
-            return out
-        t1 = time.time()
-        rc, log = sh([exe], 1800)
-        out['programs'].append({'name': name, 'source': src, 'exit': rc, 'differs': rc == 1, 'wall_s': round(time.time() - t1, 1),
-                                'output': log[-3000:], 'cmd': exe})
-        if rc not in (0, 1):
-            out['infra'] = 'probe %s ended with exit %s: %s' % (name, rc, log[-800:])
+        runs = {}
+        for tag, d, extra in (('par', pdir, ['-ltbb']), ('seq', sdir, ['-DNOTBB'])):
+            exe = os.path.join(d, 'probe_' + name)
+            rc, log = sh(['g++', '-std=c++17', '-O1', '-I' + os.path.join(REPO, 'include'), src, '-L' + os.path.join(d, 'src'), '-lmanifold',
+                          '-Wl,-rpath,' + os.path.join(d, 'src'), '-o', exe] + extra, 600)
+            if rc != 0:
+                out['infra'] = 'probe %s (%s) failed to build: %s' % (name, tag, log[-1500:])
+                return out
+            t1 = time.time()
+            rc, log = sh([exe], 1800)
+            runs[tag] = (rc, log, exe, round(time.time() - t1, 1))
+            if rc not in (0, 1):
+                out['infra'] = 'probe %s (%s) ended with exit %s: %s' % (name, tag, rc, log[-800:])
+        one = lambda log: [l for l in log.splitlines() if l.startswith('threads=1 ')]
+        among_par = runs['par'][0] == 1
+        par_vs_seq = one(runs['par'][1]) != one(runs['seq'][1]) or runs['seq'][0] == 1
+        out['programs'].append({'name': name, 'source': src, 'exit_par': runs['par'][0], 'exit_seq': runs['seq'][0],
+                                'differs': bool(among_par or par_vs_seq), 'differs_among_par_runs': among_par, 'differs_par_vs_serial_build': par_vs_seq,
+                                'wall_s': runs['par'][3] + runs['seq'][3], 'output': ('== MANIFOLD_PAR=ON\n' + runs['par'][1][-1500:] + '\n== MANIFOLD_PAR=OFF\n' + runs['seq'][1][-1200:]),
+                                'cmd': runs['par'][2]})
     return out
 
 
